@@ -316,3 +316,245 @@ Example C04_ex_lax :
                 (Some (ELen (mkLenError 8 4 LsSlice LyUdpHeader 38), LyUdpHeader))).
 Proof. split; vm_compute; reflexivity. Qed.
 
+
+(* ---- extend-c04lax ---- *)
+(* The LAX half of C04, whole packets: LaxPacketHeaders against LaxSlicedPacket.
+
+   Definitions (Parse/HdrLaxCut.v):
+     LaxCut.from_* cut    the lax slicing algorithm (LaxSlices.v + LaxCursor.v, textual copy) whose
+                          IPv6 extension walk, with cut = true, ends WITHOUT stop error in front of
+                          the first header with `refilled` (the rule of HdrCut.v), which becomes the
+                          payload's protocol number; cut = false is LaxSlicedPacket.from_*
+     lconv                a LaxSlicedPacket converted with to_header() of every slice, its innermost
+                          payload (transport payload with the IP payload's incomplete flag, else IP
+                          payload, nothing behind ARP, else LaxSlicedPacket::ether_payload() /
+                          the modified MACsec payload) and its stop error
+     lhagree f11 h s      same verdict; Err: the same record; Ok: same link / link extension /
+                          network / transport header windows, the struct family's payload is the
+                          slicing family's with the carried-forward length source (`carry_src`,
+                          observation (D)), stop errors related by `stop_rel f11`: same layer tag and
+                          the same record, or the same record up to the struct family saying Slice
+                          (`lerr_rel`, observation (C)), or -- only with f11 = true and on the tag
+                          IpHeader -- an F11 pair (`f11_pair`: a first IPv4 header of which fewer
+                          than 20 bytes are present; same layer, `len`, offset); neither side nor
+                          its view is Bug
+     lax_f11 h            the decidable F11-like class, read off the LaxPacketHeaders result: stop
+                          error Len{required 20, len < 20, layer Ipv4Header} on the tag IpHeader
+     lax_stopped_at_ext   the cut happened: IPv6 result without stop error whose payload is announced
+                          as an extension header (impossible in an uncut lax result)
+
+   FULL STATEMENT, PROVED: C04_lax_headers_eq_slices + C04_lax_headers_eq_slices_strict +
+   C04_lax_cut_is_slicing_* (+ the combination C04_lax_headers_eq_slices_or_exception), for every
+   byte string and every ether type; C04_lax_headers_never_bug.  Proofs: Parse/HdrLaxCutProofs.v,
+   HdrLaxProofs2.v (extension chain in lockstep, IPv6 layer, IP dispatch, F11),
+   HdrLaxProofs3.v (add_ip / slice_ip, ARP, link-extension loop by induction on the remaining
+   capacity, entry points). *)
+From EP Require Import Parse.HdrLaxCut Parse.HdrLaxCutProofs Parse.HdrLaxProofs2 Parse.HdrLaxProofs3.
+
+(* ---- the cut variant of the lax slicing model and the lax slicing model ------------------ *)
+Theorem C04_lax_cut_false_from_ethernet : forall bs,
+  LaxCut.from_ethernet false bs = LaxSlicedPacket.from_ethernet bs.
+Proof. exact lcut_false_from_ethernet. Qed.
+Print Assumptions C04_lax_cut_false_from_ethernet.
+
+Theorem C04_lax_cut_false_from_ether_type : forall et bs,
+  LaxCut.from_ether_type false et bs = LaxSlicedPacket.from_ether_type et bs.
+Proof. exact lcut_false_from_ether_type. Qed.
+Print Assumptions C04_lax_cut_false_from_ether_type.
+
+Theorem C04_lax_cut_false_from_ip : forall bs, LaxCut.from_ip false bs = LaxSlicedPacket.from_ip bs.
+Proof. exact lcut_false_from_ip. Qed.
+Print Assumptions C04_lax_cut_false_from_ip.
+
+Theorem C04_lax_cut_is_slicing_ethernet : forall bs,
+  lax_stopped_at_ext (LaxCut.from_ethernet true bs) = false ->
+  (forall b, LaxCut.from_ethernet true bs <> Bug b) ->
+  LaxCut.from_ethernet true bs = LaxSlicedPacket.from_ethernet bs.
+Proof. exact lcut_only_when_stopped_ethernet. Qed.
+Print Assumptions C04_lax_cut_is_slicing_ethernet.
+
+Theorem C04_lax_cut_is_slicing_ether_type : forall et bs,
+  lax_stopped_at_ext (LaxCut.from_ether_type true et bs) = false ->
+  (forall b, LaxCut.from_ether_type true et bs <> Bug b) ->
+  LaxCut.from_ether_type true et bs = LaxSlicedPacket.from_ether_type et bs.
+Proof. exact lcut_only_when_stopped_ether_type. Qed.
+Print Assumptions C04_lax_cut_is_slicing_ether_type.
+
+Theorem C04_lax_cut_is_slicing_ip : forall bs,
+  lax_stopped_at_ext (LaxCut.from_ip true bs) = false ->
+  (forall b, LaxCut.from_ip true bs <> Bug b) ->
+  LaxCut.from_ip true bs = LaxSlicedPacket.from_ip bs.
+Proof. exact lcut_only_when_stopped_ip. Qed.
+Print Assumptions C04_lax_cut_is_slicing_ip.
+
+(* ---- layers of the whole-packet theorem ------------------------------------------------------ *)
+(* Ipv6Extensions::from_slice_lax (struct loop) in lockstep with the cut walk of
+   Ipv6ExtensionsSlice::from_slice_lax: same rest, same next header, the same stop error (record
+   and layer tag); the struct's slots mirror `refilled` (invariant inv6 of the strict half) *)
+Theorem C04_lax_ipv6_chain_agrees_cut : forall fuel base x rest nh fl fr,
+  inv6 base x fl fr rest -> bytes_ok (snd rest) -> (N.to_nat (s_len rest) < fuel)%nat ->
+  lwalk_rel base (LaxIpv6Extensions.loop fuel base x rest nh)
+                 (LaxCut.walk true fuel (s_len base) rest nh fr fl).
+Proof. exact lwalk_agree. Qed.
+Print Assumptions C04_lax_ipv6_chain_agrees_cut.
+
+(* IpHeaders::from_slice_lax against (cut) LaxIpSlice::from_slice, any first nibble, outside F11:
+   same Err record, or the same payload descriptor (fall-backs, incomplete flag, length source),
+   the same view of the network header and the same stop error *)
+Theorem C04_lax_ip_headers_agree_cut : forall s, bytes_ok (snd s) ->
+  (forall b0, rd (snd s) 0 = Some b0 -> N.shiftr b0 4 = 4 -> 20 <= s_len s) ->
+  lipd_rel s (LaxIpHeaders.from_slice_lax s) (LaxCut.ip_from_slice true s).
+Proof. exact lax_ip_agree. Qed.
+Print Assumptions C04_lax_ip_headers_agree_cut.
+
+(* ---- the property, lax pair: whole packets, all three entry points ------------------------------ *)
+Theorem C04_lax_headers_eq_slices : forall bs et, bytes_ok bs ->
+  lhagree true (LaxPacketHeaders.from_ethernet bs) (LaxCut.from_ethernet true bs) /\
+  lhagree true (LaxPacketHeaders.from_ether_type et bs) (LaxCut.from_ether_type true et bs) /\
+  (F11 bs = false -> lhagree true (LaxPacketHeaders.from_ip bs) (LaxCut.from_ip true bs)) /\
+  (F11 bs = true ->
+     exists e e', LaxPacketHeaders.from_ip bs = Err e /\ LaxCut.from_ip true bs = Err e' /\
+       LaxSlicedPacket.from_ip bs = Err e' /\ f11_pair e e').
+Proof. exact lax_hdr_eq_slices. Qed.
+Print Assumptions C04_lax_headers_eq_slices.
+
+(* outside the F11-like class the F11 clause of the stop error relation is not needed *)
+Theorem C04_lax_headers_eq_slices_strict : forall h s,
+  lhagree true h s -> lax_f11 h = false -> lhagree false h s.
+Proof. exact lhagree_strict. Qed.
+Print Assumptions C04_lax_headers_eq_slices_strict.
+
+(* LaxPacketHeaders agrees with LaxSlicedPacket, or the documented exception: lax slicing cut at the
+   first refilled IPv6 extension header stopped there, and LaxPacketHeaders agrees with that *)
+Theorem C04_lax_headers_eq_slices_or_exception : forall bs et, bytes_ok bs ->
+  (lhagree true (LaxPacketHeaders.from_ethernet bs) (LaxSlicedPacket.from_ethernet bs) \/
+   (lax_stopped_at_ext (LaxCut.from_ethernet true bs) = true /\
+    lhagree true (LaxPacketHeaders.from_ethernet bs) (LaxCut.from_ethernet true bs))) /\
+  (lhagree true (LaxPacketHeaders.from_ether_type et bs) (LaxSlicedPacket.from_ether_type et bs) \/
+   (lax_stopped_at_ext (LaxCut.from_ether_type true et bs) = true /\
+    lhagree true (LaxPacketHeaders.from_ether_type et bs) (LaxCut.from_ether_type true et bs))) /\
+  (F11 bs = false ->
+   lhagree true (LaxPacketHeaders.from_ip bs) (LaxSlicedPacket.from_ip bs) \/
+   (lax_stopped_at_ext (LaxCut.from_ip true bs) = true /\
+    lhagree true (LaxPacketHeaders.from_ip bs) (LaxCut.from_ip true bs))).
+Proof. exact lax_hdr_eq_slices_or_exception. Qed.
+Print Assumptions C04_lax_headers_eq_slices_or_exception.
+
+(* LaxPacketHeaders (and the observer view of its results) never returns Bug: to_header() unwraps,
+   push on the ArrayVec, pointer subtraction in add_ip, checked indexing; F11 inputs included *)
+Theorem C04_lax_headers_never_bug : forall bs et b, bytes_ok bs ->
+  (LaxPacketHeaders.from_ethernet bs <> Bug b /\ LaxPacketHeaders.from_ether_type et bs <> Bug b /\
+   LaxPacketHeaders.from_ip bs <> Bug b) /\
+  (lhvres_of_h (LaxPacketHeaders.from_ethernet bs) <> LHBug b /\
+   lhvres_of_h (LaxPacketHeaders.from_ether_type et bs) <> LHBug b /\
+   lhvres_of_h (LaxPacketHeaders.from_ip bs) <> LHBug b).
+Proof. exact lax_hdr_never_bug. Qed.
+Print Assumptions C04_lax_headers_never_bug.
+
+(* pin the meaning of the relation *)
+Check (eq_refl : lhagree =
+  fun f11 h s =>
+    match h, s with
+    | Ok p, Ok sp => exists v v', lhview_of p = Ok v /\ lconv sp = Ok v' /\ lhv_rel f11 sp v v'
+    | Err e, Err e' => e = e'
+    | _, _ => False
+    end).
+Check (eq_refl : lhv_rel =
+  fun f11 sp v v' =>
+    lhv_link v = lhv_link v' /\ lhv_exts v = lhv_exts v' /\ lhv_net v = lhv_net v' /\
+    lhv_tr v = lhv_tr v' /\ lhv_payload v = carry_src sp (lhv_payload v') /\
+    stop_rel f11 (lhv_stop v) (lhv_stop v')).
+Check (eq_refl : stop_rel =
+  fun f11 h s =>
+    match h, s with
+    | None, None => True
+    | Some (eh, ly), Some (es, ly') =>
+        ly = ly' /\
+        (match eh, es with
+         | ELen lh, ELen ls => lerr_rel lh ls
+         | EContent c, EContent c' => c = c'
+         | _, _ => False
+         end \/ (f11 = true /\ ly = LyIpHeader /\ f11_pair eh es))
+    | _, _ => False
+    end).
+Check (eq_refl : lerr_rel = fun h s => h = s \/ h = le_set_src s LsSlice).
+Check (eq_refl : f11_pair =
+  fun eh es =>
+    exists n off, n < 20 /\ eh = ELen (mkLenError 20 n LsSlice LyIpv4Header off) /\
+      ((exists i, i < 5 /\ es = EContent (CeIpIhl i)) \/
+       (exists hl src, 20 <= hl /\ es = ELen (mkLenError hl n src LyIpv4Header off)))).
+
+(* ---- non-vacuity / witnesses (by computation) --------------------------------------------------- *)
+(* observation (C): Ethernet II, MACsec with short length (8 byte body), IPv6 header cut short:
+   the stop error names the MACsec short length in LaxSlicedPacket and Slice in LaxPacketHeaders;
+   everything else is equal *)
+Definition ex_macsec_short_v6cut : bytes :=
+  [1;2;3;4;5;6; 7;8;9;10;11;12; 136;229;
+   0;10; 0;0;0;1; 134;221;
+   96;0;0;0; 0;0;17;64;
+   170;187;204;221].
+Example C04_ex_lax_obs_C :
+  bytes_ok ex_macsec_short_v6cut /\
+  lhvres_of_h (LaxPacketHeaders.from_ethernet ex_macsec_short_v6cut) =
+    LHOk (mkLHv (Some (HvlEthernet2 (0, 14))) [HvMacsec (14, 8)] None None
+                (LHvpEther (mkLVEp false 34525 LsMacsecShortLength (22, 8)))
+                (Some (ELen (mkLenError 40 8 LsSlice LyIpv6Header 22), LyIpHeader))) /\
+  lhvres_of_s (LaxSlicedPacket.from_ethernet ex_macsec_short_v6cut) =
+    LHOk (mkLHv (Some (HvlEthernet2 (0, 14))) [HvMacsec (14, 8)] None None
+                (LHvpEther (mkLVEp false 34525 LsMacsecShortLength (22, 8)))
+                (Some (ELen (mkLenError 40 8 LsMacsecShortLength LyIpv6Header 22), LyIpHeader))) /\
+  lax_f11 (LaxPacketHeaders.from_ethernet ex_macsec_short_v6cut) = false.
+Proof.
+  split; [apply bytes_okb_spec; vm_compute; reflexivity|]. repeat split; vm_compute; reflexivity.
+Qed.
+
+(* observation (D): two MACsec headers, the first with a short length, the second without:
+   LaxPacketHeaders carries MacsecShortLength forward into the ether payload,
+   LaxSlicedPacket::ether_payload() says Slice *)
+Definition ex_macsec2 : bytes :=
+  [1;2;3;4;5;6; 7;8;9;10;11;12; 136;229;
+   0;14; 0;0;0;1; 136;229;
+   0;0; 0;0;0;2; 18;52;
+   1;2;3;4;
+   170;187].
+Example C04_ex_lax_obs_D :
+  bytes_ok ex_macsec2 /\
+  lhvres_of_h (LaxPacketHeaders.from_ethernet ex_macsec2) =
+    LHOk (mkLHv (Some (HvlEthernet2 (0, 14))) [HvMacsec (14, 8); HvMacsec (22, 8)] None None
+                (LHvpEther (mkLVEp false 4660 LsMacsecShortLength (30, 4))) None) /\
+  lhvres_of_s (LaxSlicedPacket.from_ethernet ex_macsec2) =
+    LHOk (mkLHv (Some (HvlEthernet2 (0, 14))) [HvMacsec (14, 8); HvMacsec (22, 8)] None None
+                (LHvpEther (mkLVEp false 4660 LsSlice (30, 4))) None).
+Proof.
+  split; [apply bytes_okb_spec; vm_compute; reflexivity|]. split; vm_compute; reflexivity.
+Qed.
+
+(* the documented exception in the lax pair (the packet of C04_ex_exception): LaxPacketHeaders stops
+   in front of the second fragment header without stop error = lax slicing cut there; uncut lax
+   slicing goes on to the UDP header *)
+Example C04_ex_lax_exception :
+  F11 ex_dup = false /\
+  lax_stopped_at_ext (LaxCut.from_ip true ex_dup) = true /\
+  lhvres_of_h (LaxPacketHeaders.from_ip ex_dup) = lhvres_of_s (LaxCut.from_ip true ex_dup) /\
+  lhvres_of_h (LaxPacketHeaders.from_ip ex_dup) =
+    LHOk (mkLHv None [] (Some (HvIpv6 (0, 40) (Some 44) false (40, 8))) None
+                (LHvpIp (mkLVIp false 44 false LsIpv6HeaderPayloadLen (48, 16))) None) /\
+  lhvres_of_s (LaxSlicedPacket.from_ip ex_dup) =
+    LHOk (mkLHv None [] (Some (HvIpv6 (0, 40) (Some 44) false (40, 16))) (Some (HvUdp (56, 8)))
+                (LHvpUdp false (64, 0)) None).
+Proof. repeat split; vm_compute; reflexivity. Qed.
+
+(* the F11-like class behind an ether type: 3 bytes of an IPv4 header announcing IHL 15 *)
+Example C04_ex_lax_f11 :
+  lax_f11 (LaxPacketHeaders.from_ether_type 2048 [79; 0; 0]) = true /\
+  lhvres_of_h (LaxPacketHeaders.from_ether_type 2048 [79; 0; 0]) =
+    LHOk (mkLHv None [] None None (LHvpEther (mkLVEp false 2048 LsSlice (0, 3)))
+                (Some (ELen (mkLenError 20 3 LsSlice LyIpv4Header 0), LyIpHeader))) /\
+  lhvres_of_s (LaxSlicedPacket.from_ether_type 2048 [79; 0; 0]) =
+    LHOk (mkLHv None [] None None (LHvpEther (mkLVEp false 2048 LsSlice (0, 3)))
+                (Some (ELen (mkLenError 60 3 LsSlice LyIpv4Header 0), LyIpHeader))) /\
+  F11 [79; 0; 0] = true /\
+  LaxPacketHeaders.from_ip [79; 0; 0] = Err (ELen (mkLenError 20 3 LsSlice LyIpv4Header 0)) /\
+  LaxSlicedPacket.from_ip [79; 0; 0] = Err (ELen (mkLenError 60 3 LsSlice LyIpv4Header 0)).
+Proof. repeat split; vm_compute; reflexivity. Qed.
+(* ---- end extend-c04lax ---- *)
